@@ -38,6 +38,8 @@ pub struct Config {
     /// the application waits (600 virtual seconds) after its last send before closing the link
     pub linger: bool,
     pub seed: u64,
+    /// the peer re-opens its session window by this many frames at a time (0 = to the full window)
+    pub reopen_by: u32,
 }
 
 impl Config {
@@ -45,7 +47,7 @@ impl Config {
         json!({"peer_max_frame_size": self.peer_max_frame_size, "peer_max_message_size": self.peer_max_message_size,
                "peer_incoming_window": self.peer_incoming_window, "credit": self.credit, "snd_settle_mode": self.snd_settle_mode,
                "rcv_second": self.rcv_second, "initial_outgoing_id": self.initial_outgoing_id, "sizes": self.sizes,
-               "outcomes": self.outcomes, "disposition_batch": self.disposition_batch, "linger": self.linger, "seed": self.seed})
+               "outcomes": self.outcomes, "disposition_batch": self.disposition_batch, "linger": self.linger, "seed": self.seed, "reopen_by": self.reopen_by})
     }
     pub fn from_json(j: &J) -> Option<Config> {
         Some(Config {
@@ -61,6 +63,7 @@ impl Config {
             disposition_batch: j.get("disposition_batch")?.as_u64()? as usize,
             linger: j.get("linger").and_then(|x| x.as_bool()).unwrap_or(true),
             seed: j.get("seed")?.as_u64()?,
+            reopen_by: j.get("reopen_by").and_then(|x| x.as_u64()).unwrap_or(0) as u32,
         })
     }
 }
@@ -363,8 +366,8 @@ pub fn run(cfg: &Config) -> Observed {
                 Ok(Incoming::Empty { .. }) => {}
                 Err(PeerError::Timeout) if window_closed => {
                     window_closed = false;
-                    window_left = cfg.peer_incoming_window;
-                    let mut f = grant(idc.wrapping_add(deliveries_done), credit_left, cfg.initial_outgoing_id.wrapping_add(received_frames), cfg.peer_incoming_window);
+                    window_left = if cfg.reopen_by == 0 { cfg.peer_incoming_window } else { cfg.reopen_by.min(cfg.peer_incoming_window) };
+                    let mut f = grant(idc.wrapping_add(deliveries_done), credit_left, cfg.initial_outgoing_id.wrapping_add(received_frames), window_left);
                     if credit_left == 0 && cur.is_none() {
                         credit_left = cfg.credit;
                         f.link_credit = Some(cfg.credit);
@@ -404,13 +407,14 @@ pub fn gen_config(rng: &mut Rng, k: u64) -> Config {
     let n = rng.range(1, 6) as usize;
     let body = peer_max_frame_size as usize;
     let sizes: Vec<usize> = (0..n)
-        .map(|_| match rng.below(7) {
+        .map(|_| match rng.below(8) {
             0 => 0,
             1 => rng.range(1, 50) as usize,
             2 => body - rng.range(0, 60) as usize,
             3 => body + rng.range(0, 60) as usize,
             4 => 2 * body + rng.range(0, 40) as usize,
             5 => peer_max_message_size as usize * 2 + rng.range(0, 20) as usize,
+            6 if body <= 4096 => 6 * body + rng.range(0, 40) as usize,
             _ => rng.range(0, 3 * body as u64) as usize,
         })
         .collect();
@@ -427,6 +431,7 @@ pub fn gen_config(rng: &mut Rng, k: u64) -> Config {
         disposition_batch: *rng.pick(&[1usize, 1, 2, 3]),
         linger: !rng.chance(1, 3),
         seed: k,
+        reopen_by: *rng.pick(&[0u32, 0, 1, 2]),
     }
 }
 
